@@ -571,12 +571,37 @@ class RealTunnel:
             self._bufs(sw.buf), b01(sw.shut_read), b01(sw.shut_write), b01(sw.connect_to is not None), b01(sw.exc),
             mw.channel, self._bufs(mw.buf), b01(mw.shut_read), b01(mw.shut_write), b01(p.ok))
 
+    # ---- the termination measure of Spec/Measure.lean, counted on the real objects (same weights)
+    def _q_mu(self, mux):
+        n = 0
+        for p in mux.outbuf:
+            (_s1, _s2, _chan, cmd, ln) = struct.unpack('!ccHHH', p[:8])
+            n += 2 + 3 * ln + ((3 + 3 * ln) if cmd == self.ssnet.CMD_PING else 0)
+        return n
+
+    def _h_mu(self, p, hl, sock_first):
+        if p is None or p not in hl:
+            return 0
+        sw, mw = (p.wrap1, p.wrap2) if sock_first else (p.wrap2, p.wrap1)
+        s_mu = (6 * sum(len(b) for b in sw.buf) + len(sw.buf) + (0 if sw.shut_read else 1) + (0 if sw.shut_write else 1)
+                + (1 if sw.connect_to is not None else 0) + (0 if sw.exc else 1))
+        w_mu = 2 * sum(len(b) for b in mw.buf) + len(mw.buf) + (0 if mw.shut_read else 3) + (0 if mw.shut_write else 3)
+        return 1 + s_mu + w_mu + (1 if p.ok else 0)
+
+    def mu(self):
+        n = (0 if self.died else 1) + self._q_mu(self.cmux) + self._q_mu(self.smux)
+        for f in self.flows:
+            n += 8 * len(f.app.pending) + (0 if f.app.saw_shut else 1) + 8 * len(f.dst.pending) + (0 if f.dst.saw_shut else 1)
+            n += self._h_mu(f.cproxy, self.chandlers, True) + self._h_mu(f.sproxy, self.shandlers, False)
+            n += 0 if f.s_ever else 12
+        return n
+
     def show(self):
         died = '-'
         if self.died:
             died = self.died
-        s = 'died=%s chani=%d cm[%s] sm[%s]' % (died if died == '-' else 'yes', self.cmux.chani,
-                                               self._show_mux(self.cmux), self._show_mux(self.smux))
+        s = 'died=%s chani=%d cm[%s] sm[%s] mu=%d' % (died if died == '-' else 'yes', self.cmux.chani,
+                                                     self._show_mux(self.cmux), self._show_mux(self.smux), self.mu())
         for i, f in enumerate(self.flows):
             s += ' f%d ch%d C:%s S:%s app:%s dst:%s' % (
                 i, f.chan, self._show_proxy(f.cproxy, self.chandlers, True),
